@@ -802,6 +802,13 @@ impl Line {
                 field += 1;
             }
             /*
+             * A checksum or size line has at least an action, a file name,
+             * an "=" and a value.  Anything shorter records nothing.
+             */
+            if field < 4 {
+                return Line::None;
+            }
+            /*
              * Valid actions are "Size", or a valid Digest type.  Anything
              * else is unmatched.
              */
